@@ -874,6 +874,7 @@ func checkProof(t *rapid.T, r *runner, qs [][]byte, ctx func() string) (*wire, p
 	}
 	w := wireOf(qs, p, r.root, L)
 	lip := true
+	modelKeys := msmt.Keys(L, r.kv)
 	for i, k := range qs {
 		q := w.Q[i]
 		if msmt.Present(r.kv, k) {
@@ -883,7 +884,7 @@ func checkProof(t *rapid.T, r *runner, qs [][]byte, ctx func() string) (*wire, p
 		} else if bytes.Equal(q.Key, k) && len(q.Value) != 0 {
 			t.Fatalf("proof shows a value for absent key %x: value=%x\n%s%s", k, q.Value, w, ctx())
 		}
-		a := msmt.Query(L, r.kv, k)
+		a := msmt.QuerySorted(L, r.kv, modelKeys, k)
 		if !bytes.Equal(a.Key, q.Key) || !bytes.Equal(a.Value, q.Value) || !bytes.Equal(packBitmap(a.Bitmap), q.Bitmap) {
 			lip = false
 		}
@@ -1709,6 +1710,782 @@ func TestLargeMaps(t *testing.T) {
 		evid.R.Case(fmt.Sprintf("large|%d|%d|%d|%s|%s", L, n, seed, cluster, storeKind), true, func() any {
 			return map[string]any{"kind": "large-map", "keyLength": L, "keys": len(all), "cluster": cluster, "store": storeKind, "seed": seed}
 		}, "large-map", fmt.Sprintf("large:L=%d", L), "large:"+cluster, fmt.Sprintf("large:n=%d", n))
+	})
+}
+
+// ---------------------------------------------------------------------------------------------------------------
+// dense subtrees (own run spec, a few rapid checks per kind): directed key families that expand one or more of the
+// trie's 8-bit subtrees COMPLETELY (256 nodes at depth 8 = the largest subtree the store ever holds, count byte 255),
+// sit exactly at the neighbouring sizes (254/255 nodes; 256 leaves + 1 key), nest such subtrees two or three levels
+// deep, and maps large enough (1000+ uniform keys; a 38-byte "module store" with 1000+ entries; a block with
+// hundreds of events) that the same happens without direction. The states are pushed through the same oracles as
+// everywhere else: model root after every batch, Prove/Verify/codec/tamperings, reopen, one-batch rebuild, a second
+// route on another store.
+//
+// Layout facts used for DIRECTING the generator and for LABELS only (never asserted against the engine): the subtree
+// below a prefix of l bytes holds the keys sharing that prefix; walking the next 8 key bits, a part without keys is one
+// empty node, with one key one leaf node, with >= 2 keys at depth 8 one stub node (root of the next subtree). So a
+// subtree has 256 nodes iff each of its 128 pairs of neighbouring slots holds >= 2 keys.
+
+type denseLevel struct {
+	Level   int    // byte index: the subtree below Spine[:Level]
+	Profile string // leaves: one key per slot; stubs: two keys per slot; mixed: per pair one of pairShapes
+	Toggled []densePair
+	fam     [][]byte // base keys of this family
+}
+
+type densePair struct{ Pair, Shape, Which int }
+
+type densePlan struct {
+	Kind   string
+	L      int
+	Seed   uint64
+	Store  string
+	N      int // undirected kinds: number of keys
+	Spine  []byte
+	Levels []*denseLevel
+	Watch  []int // byte levels (prefix Spine[:level]) of the subtrees whose size is tracked across batches
+
+	base, toggle, extra, hot [][]byte
+}
+
+// number of keys in the two slots of a pair; every shape has >= 2 keys (the pair is expanded to depth 8)
+var pairShapes = [][2]int{{1, 1}, {2, 0}, {0, 2}, {2, 1}, {1, 2}, {2, 2}, {3, 0}, {0, 3}, {1, 1}, {2, 2}}
+
+// shapes of a toggled pair: exactly two keys, one of them is the toggle key (without it the pair collapses to one
+// node at depth 7: the subtree has one node less)
+var toggleShapes = [][2]int{{1, 1}, {2, 0}, {0, 2}}
+
+func (p *densePlan) famKey(level, slot, j int) []byte {
+	k := make([]byte, p.L)
+	copy(k, p.Spine[:level])
+	k[level] = byte(slot)
+	copy(k[level+1:], expand(p.Seed, fmt.Sprintf("t%d", level), slot*8+j, p.L-level-1))
+	return k
+}
+
+func (p *densePlan) val(k []byte, gen int) []byte {
+	var b [13]byte
+	binary.BigEndian.PutUint64(b[:8], p.Seed)
+	binary.BigEndian.PutUint32(b[8:12], uint32(gen))
+	b[12] = 'V'
+	h := sha256.Sum256(append(b[:], k...))
+	return h[:]
+}
+
+func (p *densePlan) String() string {
+	var sb strings.Builder
+	fmt.Fprintf(&sb, "dense case kind=%s L=%d store=%s seed=%d n=%d spine=%x base=%d toggle=%d extra=%d keys\n", p.Kind, p.L, p.Store, p.Seed, p.N, p.Spine, len(p.base), len(p.toggle), len(p.extra))
+	for _, lv := range p.Levels {
+		fmt.Fprintf(&sb, "  dense level %d (prefix %x) profile=%s toggled pairs=%v; family key(slot,j) = prefix|slot|expand(seed,\"t%d\",8*slot+j)\n", lv.Level, p.Spine[:lv.Level], lv.Profile, lv.Toggled, lv.Level)
+	}
+	for _, k := range p.toggle {
+		fmt.Fprintf(&sb, "  toggle %x\n", k)
+	}
+	for _, k := range p.extra {
+		fmt.Fprintf(&sb, "  extra  %x\n", k)
+	}
+	return sb.String()
+}
+
+// pick draws an element uniformly (rapid.SampledFrom favours early elements; with a handful of checks per kind that
+// would starve the later ones).
+func pick[T any](t *rapid.T, from []T, label string) T {
+	return from[irange(0, len(from)-1).Draw(t, label)]
+}
+
+func drawDensePlan(t *rapid.T, kind string) *densePlan {
+	p := &densePlan{Kind: kind}
+	p.Store = pick(t, []string{"batchdb", "pebble", "map"}, "store")
+	p.Seed = rapid.Uint64().Draw(t, "seed")
+	profiles := []string{"mixed", "stubs", "leaves"}
+	var levels []int
+	switch kind {
+	case "top-leaves":
+		p.L = pick(t, []int{32, 38, 1, 2, 4, 12}, "L")
+		levels, profiles = []int{0}, []string{"leaves"}
+	case "top-mixed":
+		p.L = pick(t, []int{38, 32, 4, 2, 12}, "L")
+		levels, profiles = []int{0}, []string{"mixed", "stubs"}
+	case "lower-leaves", "lower-mixed":
+		p.L = pick(t, []int{38, 32, 4, 12}, "L")
+		c := []int{1, 2, p.L - 2}
+		if p.L >= 12 {
+			c = append(c, 6, 3) // 6 = first byte after module id + substore prefix of a 38-byte state key
+		}
+		levels = []int{pick(t, c, "level")}
+		if kind == "lower-leaves" {
+			profiles = []string{"leaves"}
+		} else {
+			profiles = []string{"mixed", "stubs"}
+		}
+	case "last-level":
+		p.L = pick(t, []int{32, 38, 1, 2, 4, 12}, "L")
+		levels = []int{p.L - 1}
+	case "nested-2":
+		p.L = pick(t, []int{38, 32, 4, 2, 12}, "L")
+		c := []int{0, p.L - 2}
+		if p.L > 2 {
+			c = append(c, 1)
+		}
+		if p.L >= 12 {
+			c = append(c, 6)
+		}
+		l0 := pick(t, c, "level")
+		levels = []int{l0, l0 + 1}
+	case "nested-3":
+		p.L = pick(t, []int{38, 32, 4, 12}, "L")
+		c := []int{0, 1, p.L - 3}
+		if p.L >= 12 {
+			c = append(c, 6)
+		}
+		l0 := pick(t, c, "level")
+		if rapid.Bool().Draw(t, "gap") {
+			levels = []int{l0, l0 + 2}
+		} else {
+			levels = []int{l0, l0 + 1, l0 + 2}
+		}
+	case "random-large":
+		p.L = pick(t, []int{32, 38, 4}, "L")
+		ns := []int{1500, 2500}
+		if evid.Thorough() {
+			ns = append(ns, 4000)
+		}
+		p.N = pick(t, ns, "n")
+		p.Watch = []int{0}
+	case "state-keys":
+		p.L = 38
+		p.N = pick(t, []int{1200, 2000}, "n")
+		p.Watch = []int{6}
+	default:
+		panic("dense kind")
+	}
+	p.Spine = randBytes(t, p.L, "spine")
+	for _, l := range levels {
+		lv := &denseLevel{Level: l, Profile: pick(t, profiles, "profile")}
+		if p.L-l-1 == 0 {
+			lv.Profile = "leaves" // last key byte: a slot is one key
+		}
+		for h := pick(t, []int{1, 2, 0, 3}, "toggledPairs"); h > 0; h-- {
+			pr := densePair{Shape: irange(0, len(toggleShapes)-1).Draw(t, "toggleShape"), Which: irange(0, 1).Draw(t, "toggleWhich")}
+			switch irange(0, 3).Draw(t, "pairAt") {
+			case 0:
+				pr.Pair = 0
+			case 1:
+				pr.Pair = 127
+			default:
+				pr.Pair = irange(0, 127).Draw(t, "pair")
+			}
+			lv.Toggled = append(lv.Toggled, pr)
+		}
+		p.Levels = append(p.Levels, lv)
+		p.Watch = append(p.Watch, l)
+	}
+	p.build(t)
+	return p
+}
+
+func (p *densePlan) build(t *rapid.T) {
+	seen := map[string]bool{}
+	add := func(dst *[][]byte, k []byte) bool {
+		if seen[string(k)] {
+			return false
+		}
+		seen[string(k)] = true
+		*dst = append(*dst, k)
+		return true
+	}
+	L := p.L
+	for li, lv := range p.Levels {
+		tail := L - lv.Level - 1
+		spinePair := -1
+		if li < len(p.Levels)-1 {
+			spinePair = int(p.Spine[lv.Level]) / 2 // this pair holds the deeper dense family: never toggled
+		}
+		tg := map[int]densePair{}
+		for i := range lv.Toggled {
+			if lv.Toggled[i].Pair == spinePair {
+				lv.Toggled[i].Pair = (spinePair + 1) % 128
+			}
+			tg[lv.Toggled[i].Pair] = lv.Toggled[i]
+		}
+		for pair := 0; pair < 128; pair++ {
+			shape := [2]int{1, 1}
+			pr, isT := tg[pair]
+			switch {
+			case tail == 0:
+			case isT:
+				shape = toggleShapes[pr.Shape]
+			case lv.Profile == "stubs":
+				shape = [2]int{2, 2}
+			case lv.Profile == "mixed":
+				shape = pairShapes[int(expand(p.Seed, fmt.Sprintf("shape%d", lv.Level), pair, 1)[0])%len(pairShapes)]
+			}
+			var pk [][]byte
+			for side := 0; side < 2; side++ {
+				for j := 0; j < shape[side]; j++ {
+					pk = append(pk, p.famKey(lv.Level, 2*pair+side, j))
+				}
+			}
+			for i, k := range pk {
+				if isT && i == pr.Which%len(pk) {
+					add(&p.toggle, k)
+				} else if add(&p.base, k) {
+					lv.fam = append(lv.fam, k)
+				}
+			}
+		}
+	}
+	pickFrom := p.base
+	switch p.Kind {
+	case "random-large":
+		for i := 0; i < p.N; i++ {
+			add(&p.base, expand(p.Seed, "k", i, L))
+		}
+		pickFrom = p.base
+	case "state-keys":
+		// 38-byte state keys: module id (4) | substore prefix (2) | 32-byte hashed key. One big substore, a small
+		// one in the same module, a few entries of another module.
+		for i := 0; i < p.N; i++ {
+			add(&p.base, append(cp(p.Spine[:6]), expand(p.Seed, "k", i, 32)...))
+		}
+		pickFrom = append([][]byte{}, p.base...)
+		for i := 0; i < 40; i++ {
+			k := append(cp(p.Spine[:6]), expand(p.Seed, "s", i, 32)...)
+			k[4] ^= 0x01
+			add(&p.base, k)
+		}
+		for i := 0; i < 30; i++ {
+			k := append(cp(p.Spine[:4]), expand(p.Seed, "m", i, 34)...)
+			k[3] ^= 0x10
+			add(&p.base, k)
+		}
+	default:
+		pickFrom = p.Levels[len(p.Levels)-1].fam
+	}
+	// extras: keys that are absent at first and come and go in the later batches
+	deep := 0 // byte level of the deepest watched subtree
+	for _, w := range p.Watch {
+		deep = max(deep, w)
+	}
+	if L-deep-1 > 0 {
+		for j := 0; j < 2; j++ { // a second/third key in an occupied slot of the deepest dense subtree (leaf -> stub: "256 leaves + 1")
+			slot := irange(0, 255).Draw(t, "extraSlot")
+			k := make([]byte, L)
+			copy(k, p.Spine[:deep])
+			k[deep] = byte(slot)
+			copy(k[deep+1:], expand(p.Seed, "xs", slot*8+j, L-deep-1))
+			add(&p.extra, k)
+		}
+	}
+	if deep > 0 { // leaves the spine one level above the deepest dense subtree, in the neighbouring slot
+		k := expand(p.Seed, "xu", 0, L)
+		copy(k, p.Spine[:deep])
+		k[deep-1] ^= 0x01
+		add(&p.extra, k)
+	}
+	add(&p.extra, expand(p.Seed, "xf", 0, L)) // far away
+	if len(pickFrom) > 0 {
+		k := cp(pickFrom[irange(0, len(pickFrom)-1).Draw(t, "extraSiblingOf")]) // last-bit sibling of a present key
+		flipBit(k, 8*L-1)
+		add(&p.extra, k)
+	}
+	if len(p.toggle) > 0 {
+		k := cp(p.toggle[0]) // last-bit sibling of a toggle key
+		flipBit(k, 8*L-1)
+		add(&p.extra, k)
+	}
+	p.hot = append(p.hot, p.toggle...)
+	p.hot = append(p.hot, p.extra...)
+	nb := 4
+	if len(p.Levels) == 0 {
+		nb = 8
+	}
+	hs := map[string]bool{}
+	for i := 0; i < nb && len(pickFrom) > 0; i++ {
+		k := pickFrom[irange(0, len(pickFrom)-1).Draw(t, "hotBase")]
+		if !hs[string(k)] {
+			hs[string(k)] = true
+			p.hot = append(p.hot, k)
+		}
+	}
+}
+
+// history: base keys in one or two batches, a "fill" batch that sets every toggle key (from here on every planned
+// dense subtree is complete), then 2-4 batches that set/delete keys of the hot pool.
+func (p *densePlan) history(t *rapid.T) (*history, int) {
+	h := &history{L: p.L, Store: p.Store}
+	idx := seq(len(p.base))
+	tags := make([][]byte, len(idx))
+	for i := range tags {
+		tags[i] = expand(p.Seed, "o", i, 8)
+	}
+	sort.Slice(idx, func(a, b int) bool { return bytes.Compare(tags[idx[a]], tags[idx[b]]) < 0 })
+	cut := len(idx)
+	switch rapid.SampledFrom([]string{"one-batch", "half", "all-but-one", "drawn"}).Draw(t, "baseSplit") {
+	case "half":
+		cut = len(idx) / 2
+	case "all-but-one":
+		cut = len(idx) - 1
+	case "drawn":
+		cut = irange(1, len(idx)).Draw(t, "baseCut")
+	}
+	var b0, b1 batch
+	for n, i := range idx {
+		o := op{p.base[i], p.val(p.base[i], 0)}
+		if n < cut {
+			b0.Ops = append(b0.Ops, o)
+		} else {
+			b1.Ops = append(b1.Ops, o)
+		}
+	}
+	h.Batches = append(h.Batches, b0)
+	if len(b1.Ops) > 0 {
+		b1.Reopen = rapid.Bool().Draw(t, "reopenBase")
+		h.Batches = append(h.Batches, b1)
+	}
+	fill := batch{Reopen: irange(0, 3).Draw(t, "reopenFill") > 0}
+	for _, i := range rapid.Permutation(seq(len(p.toggle))).Draw(t, "fillOrder") {
+		fill.Ops = append(fill.Ops, op{p.toggle[i], p.val(p.toggle[i], 1)})
+	}
+	for _, k := range p.extra {
+		if rapid.Bool().Draw(t, "fillExtra") {
+			fill.Ops = append(fill.Ops, op{k, p.val(k, 1)})
+		}
+	}
+	if len(fill.Ops) == 0 {
+		fill.Ops = append(fill.Ops, op{p.hot[0], p.val(p.hot[0], 1)})
+	}
+	h.Batches = append(h.Batches, fill)
+	fillIdx := len(h.Batches) - 1
+	nd := rapid.SampledFrom([]int{3, 2, 4}).Draw(t, "deltaBatches")
+	for d := 0; d < nd; d++ {
+		b := batch{Reopen: irange(0, 3).Draw(t, "reopenDelta") > 0}
+		for _, i := range rapid.Permutation(seq(len(p.hot))).Draw(t, "deltaOrder") {
+			if irange(0, 99).Draw(t, "deltaIn") >= 40 {
+				continue
+			}
+			o := op{Key: p.hot[i]}
+			if rapid.Bool().Draw(t, "deltaSet") {
+				o.Val = p.val(p.hot[i], 2+d)
+			}
+			b.Ops = append(b.Ops, o)
+		}
+		if len(b.Ops) == 0 {
+			b.Ops = append(b.Ops, op{Key: p.hot[0]})
+		}
+		h.Batches = append(h.Batches, b)
+	}
+	return h, fillIdx
+}
+
+// subtreeInfo: one stored subtree of the (expected) layout of a key set.
+type subtreeInfo struct {
+	Level                 int
+	Prefix                []byte
+	Nodes                 int
+	Leaves, Stubs, Empties int
+	FullAbove             int // number of complete (256-node) subtrees among its ancestors
+	keys                  [][]byte
+}
+
+// census lists the subtrees of the layout for the sorted keys (labels and generator self-check only).
+func census(keys [][]byte) []subtreeInfo {
+	var out []subtreeInfo
+	var walk func(ks [][]byte, level, fullAbove int)
+	walk = func(ks [][]byte, level, fullAbove int) {
+		info := subtreeInfo{Level: level, Prefix: cp(ks[0][:level]), FullAbove: fullAbove, keys: ks}
+		var below [][][]byte
+		var rec func(ks [][]byte, depth int)
+		rec = func(ks [][]byte, depth int) {
+			switch {
+			case len(ks) == 0:
+				info.Empties++
+			case len(ks) == 1:
+				info.Leaves++
+			case depth == 8:
+				info.Stubs++
+				below = append(below, ks)
+			default:
+				i := sort.Search(len(ks), func(i int) bool { return msmt.Bit(ks[i], 8*level+depth) })
+				rec(ks[:i], depth+1)
+				rec(ks[i:], depth+1)
+			}
+		}
+		rec(ks, 0)
+		info.Nodes = info.Leaves + info.Stubs + info.Empties
+		out = append(out, info)
+		if info.Nodes == 256 {
+			fullAbove++
+		}
+		for _, b := range below {
+			walk(b, level+1, fullAbove)
+		}
+	}
+	if len(keys) > 0 {
+		walk(keys, 0, 0)
+	}
+	return out
+}
+
+// nodeHashAt: LIP-0039 hash of the node holding exactly the (sorted) keys, which agree on their first depth bits
+// (= the store key under which the engine keeps the subtree rooted there).
+func nodeHashAt(keys [][]byte, kv map[string][]byte, depth int) []byte {
+	switch len(keys) {
+	case 0:
+		return msmt.EmptyHash()
+	case 1:
+		return msmt.LeafHash(keys[0], kv[string(keys[0])])
+	}
+	i := sort.Search(len(keys), func(i int) bool { return msmt.Bit(keys[i], depth) })
+	return msmt.BranchHash(nodeHashAt(keys[:i], kv, depth+1), nodeHashAt(keys[i:], kv, depth+1))
+}
+
+func levelLabel(L, level int) string {
+	switch {
+	case level == L-1:
+		return fmt.Sprintf("last-key-byte(L=%d)", L)
+	case level >= 3:
+		return "3+"
+	}
+	return fmt.Sprint(level)
+}
+
+func nodesBucket(n int) string {
+	switch {
+	case n >= 254:
+		return fmt.Sprint(n)
+	case n == 0:
+		return "none"
+	}
+	return "<254"
+}
+
+func hasPrefixKey(keys [][]byte, prefix []byte) bool {
+	for _, k := range keys {
+		if bytes.HasPrefix(k, prefix) {
+			return true
+		}
+	}
+	return false
+}
+
+var denseKinds = []string{"top-leaves", "top-mixed", "lower-leaves", "lower-mixed", "last-level", "nested-2", "nested-3", "random-large", "state-keys"}
+
+func TestDense(t *testing.T) {
+	for _, kind := range denseKinds {
+		kind := kind
+		t.Run(kind, func(t *testing.T) {
+			rapid.Check(t, func(t *rapid.T) { denseCase(t, kind) })
+		})
+	}
+}
+
+func denseCase(t *rapid.T, kind string) {
+	// every sub-test's rapid.Check runs on the same seed, i.e. the same draw stream: consume a kind-specific number of
+	// draws first so that the kinds do not all get the same store/seed/length choices in their n-th case
+	for i, k := range denseKinds {
+		if k == kind {
+			rapid.SliceOfN(rapid.Uint64(), i, i).Draw(t, "decorrelate")
+		}
+	}
+	p := drawDensePlan(t, kind)
+	h, fillIdx := p.history(t)
+	L := p.L
+	r := newRunner(h)
+	defer r.st.close()
+	ctx := func() string {
+		var sb strings.Builder
+		sb.WriteString(p.String())
+		for i, b := range h.Batches {
+			if i < fillIdx {
+				fmt.Fprintf(&sb, " batch %d reopen=%v: %d base keys set to val(key,0), order by expand(seed,\"o\",i)\n", i, b.Reopen, len(b.Ops))
+				continue
+			}
+			fmt.Fprintf(&sb, " batch %d reopen=%v:", i, b.Reopen)
+			for _, o := range b.Ops {
+				if len(o.Val) == 0 {
+					fmt.Fprintf(&sb, " del(%x)", o.Key)
+				} else {
+					fmt.Fprintf(&sb, " set(%x)", o.Key)
+				}
+			}
+			sb.WriteString("\n")
+		}
+		return sb.String()
+	}
+	watchedNodes := func(cs []subtreeInfo, level int) int {
+		for _, c := range cs {
+			if c.Level == level && bytes.Equal(c.Prefix, p.Spine[:level]) {
+				return c.Nodes
+			}
+		}
+		return 0
+	}
+	var prev []subtreeInfo
+	readBack, fullStored, maxNest, maxNodes := 0, 0, 0, 0
+	for i := range h.Batches {
+		// which complete subtrees of the previous state does this Update read back from the store?
+		var opKeys [][]byte
+		for _, o := range h.Batches[i].Ops {
+			opKeys = append(opKeys, o.Key)
+		}
+		for _, c := range prev {
+			if c.Nodes == 256 && hasPrefixKey(opKeys, c.Prefix) {
+				readBack++
+				how := "same-trie-object"
+				if h.Batches[i].Reopen {
+					how = "NewTrie(root)-reopen"
+				}
+				evid.R.Label("full-subtree(256 nodes) read back by Update:"+how, 1)
+				evid.R.Label("full-subtree(256 nodes) read back by Update:level="+levelLabel(L, c.Level), 1)
+			}
+		}
+		if s := r.apply(i); s != "" {
+			t.Fatalf("%s\n%s", s, ctx())
+		}
+		sorted := msmt.Keys(L, r.kv)
+		cs := census(sorted)
+		for _, c := range cs {
+			maxNodes = max(maxNodes, c.Nodes)
+			if c.Nodes < 254 {
+				continue
+			}
+			// observation: what the store holds under this subtree's root hash
+			data, ok := r.st.reader().Get(nodeHashAt(c.keys, r.kv, 8*c.Level))
+			switch {
+			case ok && len(data) > 0 && int(data[0]) == c.Nodes-1:
+				evid.R.Label(fmt.Sprintf("store-observed:encoded subtree with count byte %d (%d nodes) under its root hash", c.Nodes-1, c.Nodes), 1)
+				if c.Nodes == 256 {
+					fullStored++
+				}
+			default:
+				evid.R.Label("store-observed:differs from expected layout (observation only)", 1)
+				evid.R.Note("dense: expected a stored subtree with %d nodes at prefix %x, store has found=%v firstByte=%v", c.Nodes, c.Prefix, ok, data[:min(1, len(data))])
+			}
+			if c.Nodes == 256 {
+				maxNest = max(maxNest, c.FullAbove+1)
+				evid.R.Label("full-subtree(256 nodes) in state:level="+levelLabel(L, c.Level), 1)
+				evid.R.Label(fmt.Sprintf("full-subtree(256 nodes) in state:nesting-depth=%d", c.FullAbove+1), 1)
+				switch {
+				case c.Leaves == 256:
+					evid.R.Label("full-subtree(256 nodes) in state:256 leaves", 1)
+				case c.Stubs == 256:
+					evid.R.Label("full-subtree(256 nodes) in state:256 stubs", 1)
+				case c.Empties > 0:
+					evid.R.Label("full-subtree(256 nodes) in state:leaves+stubs+empty nodes", 1)
+				default:
+					evid.R.Label("full-subtree(256 nodes) in state:leaves+stubs", 1)
+				}
+			}
+		}
+		for _, w := range p.Watch {
+			evid.R.Label(fmt.Sprintf("watched-subtree nodes %s -> %s", nodesBucket(watchedNodes(prev, w)), nodesBucket(watchedNodes(cs, w))), 1)
+		}
+		if i == fillIdx && len(p.Levels) > 0 {
+			for _, w := range p.Watch {
+				if n := watchedNodes(cs, w); n != 256 {
+					t.Fatalf("harness expectation broken (generator, not the engine): planned dense subtree at level %d has %d nodes after the fill batch\n%s", w, n, ctx())
+				}
+			}
+		}
+		prev = cs
+		// proofs in this state
+		sets := [][][]byte{drawDenseQueries(t, p, r, sorted)}
+		if i == fillIdx {
+			sets = append(sets, p.proveAllSet(r, sorted))
+		}
+		for si, qs := range sets {
+			qs = dropAliases(L, r.kv, qs)
+			pctx := func() string { return fmt.Sprintf("proof taken after batch %d\n%s", i, ctx()) }
+			w, st := checkProof(t, r, qs, pctx)
+			labels := []string{"proof-dense", fmt.Sprintf("proof-dense:L=%d", L), "proof-dense:store=" + p.Store}
+			if si == 1 {
+				labels = append(labels, "proof-dense:all keys of the dense family + absent ones")
+			}
+			for _, c := range cs {
+				if c.Nodes == 256 && hasPrefixKey(qs, c.Prefix) {
+					readBack++
+					labels = append(labels, "full-subtree(256 nodes) read back by Prove:level="+levelLabel(L, c.Level))
+				}
+			}
+			evid.R.Case(fmt.Sprintf("dp|%d|%d|%x|%s", i, si, qs, h.key()), st.present > 0 && st.absent > 0, func() any {
+				return map[string]any{"kind": "proof-dense", "denseKind": kind, "keyLength": L, "store": p.Store, "mapKeys": len(r.kv), "queryKeys": len(qs), "present": st.present, "absent": st.absent}
+			}, uniq(labels)...)
+			if w != nil {
+				checkTampered(t, r, w, st, p.hot, [][]byte{p.val(p.hot[0], 0), p.val(p.hot[0], 1)}, pctx)
+			}
+		}
+	}
+	// history independence without the model: one sorted batch on a fresh store ...
+	rb, err := rebuildRoot(L, r.kv)
+	if err != nil || !bytes.Equal(rb, r.root) {
+		t.Fatalf("one-batch rebuild of the final map gives root %x (err %v), history gave %x\n%s", rb, err, r.root, ctx())
+	}
+	// ... and a second route: the final map in two sorted halves on another store kind, reopened in between
+	final := msmt.Keys(L, r.kv)
+	if len(final) >= 2 {
+		alt := &history{L: L, Store: map[string]string{"map": "batchdb", "batchdb": "pebble", "pebble": "map"}[p.Store]}
+		cut := len(final) - 1
+		switch irange(0, 2).Draw(t, "altCut") {
+		case 0:
+			cut = len(final) / 2
+		case 1:
+			cut = irange(1, len(final)-1).Draw(t, "altCutAt")
+		}
+		var a0, a1 batch
+		for n, k := range final {
+			if n < cut {
+				a0.Ops = append(a0.Ops, op{k, r.kv[string(k)]})
+			} else {
+				a1.Ops = append(a1.Ops, op{k, r.kv[string(k)]})
+			}
+		}
+		a1.Reopen = true
+		alt.Batches = []batch{a0, a1}
+		ra := newRunner(alt)
+		for i := range alt.Batches {
+			if s := ra.apply(i); s != "" {
+				ra.st.close()
+				t.Fatalf("second route (final map in two sorted batches cut at %d, store %s): %s\n%s", cut, alt.Store, s, ctx())
+			}
+		}
+		ra.st.close()
+		if !bytes.Equal(ra.root, r.root) {
+			t.Fatalf("second route (final map in two sorted batches cut at %d, store %s) gives root %x, history gave %x\n%s", cut, alt.Store, ra.root, r.root, ctx())
+		}
+	}
+	labels := []string{"dense", "dense:kind=" + kind, fmt.Sprintf("dense:L=%d", L), "dense:store=" + p.Store,
+		fmt.Sprintf("dense:max-subtree-nodes=%s", nodesBucket(maxNodes)), fmt.Sprintf("dense:full-subtrees-nested=%d", maxNest)}
+	if fullStored > 0 && readBack > 0 {
+		labels = append(labels, "dense:full 256-node subtree stored (count byte 255 seen in the store) and read back")
+	}
+	if r.reopens > 0 {
+		labels = append(labels, "dense:with-reopen")
+	}
+	if r.effectiveDeletes > 0 {
+		labels = append(labels, "dense:with-delete-of-present-key")
+	}
+	evid.R.Case("dense|"+p.String()+h.key(), readBack > 0, func() any {
+		lv := []map[string]any{}
+		for _, l := range p.Levels {
+			lv = append(lv, map[string]any{"level": l.Level, "profile": l.Profile, "toggledPairs": len(l.Toggled)})
+		}
+		return map[string]any{"kind": "dense", "denseKind": kind, "keyLength": L, "store": p.Store, "seed": p.Seed, "spine": hex.EncodeToString(p.Spine),
+			"denseLevels": lv, "baseKeys": len(p.base), "toggleKeys": len(p.toggle), "extraKeys": len(p.extra), "batches": len(h.Batches),
+			"finalKeys": len(r.kv), "fullSubtreeReadBacks": readBack, "maxNestedFullSubtrees": maxNest}
+	}, labels...)
+}
+
+// drawDenseQueries: 1-16 query keys around the dense region: hot keys (present or absent), present keys, the
+// neighbouring slot of a present key, last-bit siblings, keys with the dense prefix and a random rest, far keys.
+func drawDenseQueries(t *rapid.T, p *densePlan, r *runner, present [][]byte) [][]byte {
+	L := p.L
+	n := rapid.SampledFrom([]int{8, 12, 4, 16, 1}).Draw(t, "nDenseQueries")
+	deep := 0
+	for _, w := range p.Watch {
+		deep = max(deep, w)
+	}
+	var qs [][]byte
+	for i := 0; i < n; i++ {
+		kind := rapid.SampledFrom([]string{"hot", "present", "hot", "pairmate", "lastbit", "prefix", "far"}).Draw(t, "dqKind")
+		var k []byte
+		switch {
+		case kind == "hot":
+			k = p.hot[irange(0, len(p.hot)-1).Draw(t, "dqHot")]
+		case kind == "far" || len(present) == 0:
+			k = randBytes(t, L, "dqFar")
+		case kind == "prefix":
+			k = randBytes(t, L, "dqRest")
+			copy(k, p.Spine[:p.Watch[irange(0, len(p.Watch)-1).Draw(t, "dqWatch")]])
+		default:
+			k = cp(present[irange(0, len(present)-1).Draw(t, "dqPresent")])
+			switch kind {
+			case "pairmate":
+				flipBit(k, 8*deep+7)
+			case "lastbit":
+				flipBit(k, 8*L-1)
+			}
+		}
+		qs = append(qs, cp(k))
+	}
+	return qs
+}
+
+// proveAllSet: every present key below the deepest watched prefix (thinned to <= 300: the engine's Verify is
+// quadratic in the number of queries) plus the hot keys.
+func (p *densePlan) proveAllSet(r *runner, present [][]byte) [][]byte {
+	deep := 0
+	for _, w := range p.Watch {
+		deep = max(deep, w)
+	}
+	var under [][]byte
+	for _, k := range present {
+		if bytes.HasPrefix(k, p.Spine[:deep]) {
+			under = append(under, k)
+		}
+	}
+	step := (len(under) + 299) / 300
+	var qs [][]byte
+	for i := 0; i < len(under); i += max(1, step) {
+		qs = append(qs, cp(under[i]))
+	}
+	seen := map[string]bool{}
+	for _, k := range qs {
+		seen[string(k)] = true
+	}
+	for _, k := range p.hot {
+		if !seen[string(k)] {
+			seen[string(k)] = true
+			qs = append(qs, cp(k))
+		}
+	}
+	return qs
+}
+
+// The event-root pattern at block sizes where the top subtree is complete: hundreds of events with 1-4 distinct
+// topics each (key = 8 bytes of the topic hash + index, value = the raw event encoding), one Update, root only.
+func TestDenseEventRoot(t *testing.T) {
+	rapid.Check(t, func(t *rapid.T) {
+		seed := rapid.Uint64().Draw(t, "seed")
+		n := rapid.SampledFrom([]int{500, 900, 300}).Draw(t, "events")
+		var events []*blockchain.Event
+		for i := 0; i < n; i++ {
+			nt := 1 + int(expand(seed, "nt", i, 1)[0])%4
+			var topics []codec.Hex
+			for j := 0; j < nt; j++ {
+				topics = append(topics, expand(seed, "topic", 4*i+j, 8+int(expand(seed, "tl", 4*i+j, 1)[0])%25))
+			}
+			data := expand(seed, "data", i, int(expand(seed, "dl", i, 1)[0])%80)
+			events = append(events, blockchain.NewEventFromValues("mod", "evt", data, topics, 7, uint32(i)))
+		}
+		kv := map[string][]byte{}
+		var keys, vals [][]byte
+		for _, e := range events {
+			for _, pr := range e.KeyPairs() {
+				if _, dup := kv[string(pr.Key)]; dup {
+					t.Fatalf("harness assumption broken: duplicate event key %x", pr.Key)
+				}
+				kv[string(pr.Key)] = pr.Value
+				keys = append(keys, pr.Key)
+				vals = append(vals, pr.Value)
+			}
+		}
+		want := msmt.Root(12, kv)
+		got, err := blockchain.CalculateEventRoot(events)
+		if err != nil || !bytes.Equal(got, want) {
+			t.Fatalf("CalculateEventRoot = %x (err %v), LIP-0039 root of its %d key/value pairs = %x; events = expansion of seed %d, n=%d", got, err, len(keys), want, seed, n)
+		}
+		st := newStore("pebble")
+		defer st.close()
+		got2, err := smt.NewTrie(msmt.EmptyHash(), 12).Update(st.begin(), keys, vals)
+		if err != nil || !bytes.Equal(got2, want) {
+			t.Fatalf("single Update with %d 12-byte keys = %x (err %v), want %x; seed %d n=%d", len(keys), got2, err, want, seed, n)
+		}
+		top := census(msmt.Keys(12, kv))[0].Nodes
+		evid.R.Case(fmt.Sprintf("evl|%d|%d", seed, n), true, func() any {
+			return map[string]any{"kind": "event-pattern-large", "events": n, "keys": len(keys), "topSubtreeNodes": top}
+		}, "event-pattern-large", fmt.Sprintf("event-pattern-large:top-subtree-nodes=%s", nodesBucket(top)))
 	})
 }
 
